@@ -1,3 +1,19 @@
-import GffProofs.Lemmas.SplitJoin
-open GffProofs
-#print axioms split_join
+import GffProofs.Props.C20
+open GffProofs.C20
+#print axioms ownership
+#print axioms solo_output
+#print axioms solo_finishes
+#print axioms isolation
+#print axioms cleanup_quiescent
+#print axioms cleanup
+#print axioms enabled
+#print axioms fresh_exists
+#print axioms progress
+#print axioms finishing_schedule_exists
+#print axioms fair_schedule_finishes
+#print axioms roundRobin_finishes
+#print axioms freshNames_ok
+#print axioms roundRobin_fresh_finishes
+#print axioms readers_agree
+#print axioms readers_agree_pairwise
+#print axioms readers_never_block
